@@ -130,6 +130,9 @@ func (sr *SR) datumRename() {
 
 func (sr *SR) parseWKTSpheroid(secName []string, secData string) error {
 	d := strings.Split(secData, ",")
+	for i := range d {
+		d[i] = strings.TrimSpace(d[i]) // white space after a comma is not part of the value
+	}
 	sr.Ellps = strings.Replace(strings.Trim(d[0], "\""), "_19", "", -1)
 	sr.Ellps = strings.Replace(sr.Ellps, "clarke_18", "clrk", -1)
 	sr.Ellps = strings.Replace(sr.Ellps, "Clarke_18", "clrk", -1)
@@ -166,7 +169,7 @@ func (sr *SR) parseWKTProjection(secName []string, secData string) {
 
 func (sr *SR) parseWKTParameter(secName []string, secData string) error {
 	v := strings.Split(secData, ",")
-	name := strings.Trim(strings.ToLower(v[0]), "\"")
+	name := strings.Trim(strings.ToLower(strings.TrimSpace(v[0])), "\"")
 	val, err := strconv.ParseFloat(strings.TrimSpace(v[1]), 64)
 	if err != nil {
 		return fmt.Errorf("in proj.parseWKTParameter: %v", err)
@@ -204,7 +207,7 @@ func (sr *SR) parseWKTParameter(secName []string, secData string) error {
 
 func (sr *SR) parseWKTPrimeM(secName []string, secData string) error {
 	v := strings.Split(secData, ",")
-	name := strings.ToLower(strings.Trim(v[0], "\""))
+	name := strings.ToLower(strings.Trim(strings.TrimSpace(v[0]), "\""))
 	if name != "greenwich" {
 		return fmt.Errorf("in proj.parseWTKPrimeM: prime meridian is %s but"+
 			"only greenwich is supported", name)
@@ -214,7 +217,7 @@ func (sr *SR) parseWKTPrimeM(secName []string, secData string) error {
 
 func (sr *SR) parseWKTUnit(secName []string, secData string) error {
 	v := strings.Split(secData, ",")
-	sr.Units = strings.Trim(strings.ToLower(v[0]), "\"")
+	sr.Units = strings.Trim(strings.ToLower(strings.TrimSpace(v[0])), "\"")
 	if sr.Units == "metre" {
 		sr.Units = "meter"
 	}
@@ -262,7 +265,7 @@ func (sr *SR) parseWKTSection(secName []string, secData string) error {
 	}
 	for i, o := range open {
 		c := close[i]
-		name := strings.Trim(secData[0:o], ", ")
+		name := strings.Trim(secData[0:o], ", \t\r\n")
 		if strings.Contains(name, ",") {
 			comma := strings.LastIndex(name, ",")
 			name = strings.TrimSpace(name[comma+1 : len(name)])
